@@ -163,6 +163,9 @@ pub struct CoreOpts {
     pub solo: u8,
     /// only wait strategies that need no notification (busy, yielding)
     pub no_notify_wait: bool,
+    /// on shared streams one consumer takes a few values and then drops its handle while
+    /// its siblings are still receiving (consumer count 2 -> 1 under traffic)
+    pub leavers: bool,
 }
 
 impl Default for CoreOpts {
@@ -181,6 +184,7 @@ impl Default for CoreOpts {
             fut_direct: false,
             solo: 0,
             no_notify_wait: false,
+            leavers: false,
         }
     }
 }
@@ -282,7 +286,15 @@ pub fn core(seed: u64, name: &str, o: &CoreOpts) -> (Scenario, SchedCfg) {
                 s.setup.push(Op::IntoSingle { h });
             }
             // futures uni receivers poll through the stored closure
-            prog.extend(consume_until_end2(&mut g.rng, h, uni && !o.fut, o.fut, o.blocking_ok, o.fut_direct));
+            let real_handles = st.iter().filter(|x| **x != u32::MAX).count();
+            if o.leavers && real_handles >= 2 && h == st[0] && g.rng.chance(2, 3) {
+                // this consumer leaves early; its siblings keep the stream draining
+                let api = if o.fut { *g.rng.pick(&[RecvApi::TryRecv, RecvApi::Poll]) } else { *g.rng.pick(&[RecvApi::TryRecv, RecvApi::TryIter]) };
+                prog.push(Op::Consume { h, api, quota: g.rng.range(1, 3) as u32, max_empty: g.rng.range(2, 8) as u32, after_end: 0 });
+                prog.push(if g.rng.chance(1, 2) { Op::DropRecv { h } } else { Op::Unsub { h } });
+            } else {
+                prog.extend(consume_until_end2(&mut g.rng, h, uni && !o.fut, o.fut, o.blocking_ok, o.fut_direct));
+            }
             s.threads.push(ThreadSpec { handles: vec![h], prog, spawned: false });
         }
     }
